@@ -169,6 +169,11 @@ class PUSO(BO, PUSOMatrix):
         P = puso_to_pubo(self)
         P._mapping = self.mapping
         P._reverse_mapping = self.reverse_mapping
+        # self may still report variables that cancelled out of its terms
+        # (until ``refresh`` is called); they are in the mapping, so they must
+        # also be counted in P or else P's ancillas would reuse their labels.
+        P._variables = self.variables
+        P._num_binary_variables = self.num_binary_variables
         return P
 
     def to_pubo(self, deg=None, lam=None, pairs=None):
